@@ -59,6 +59,41 @@ var c08IllTyped = []struct{ name, patch, stmt string }{
 	{"recv-header-only", "@@\n@@\n-func (r\n", "foo(1)"},
 	{"nested-dots-in-func-lit", "@@\n@@\n-foo(func(...) { ... })\n+bar(func(...) { ... })\n", "foo(func(a int) { g() })"},
 	{"type-decl-dots", "@@\nvar T identifier\n@@\n-type T struct { ... }\n+type T struct { ...; extra int }\n", "foo(1)"},
+	// an earlier change of the same patch succeeds, a later one matches the same file but does not fit
+	{"good-then-ill", "@@\n@@\n-foo\n+foo2\n\n@@\nvar f expression\n@@\n-f(1)\n+f.f(1)\n", "foo(1)\n\tc.conn.Close(1)"},
+	{"ill-then-good", "@@\nvar f expression\n@@\n-f(1)\n+f.f(1)\n\n@@\n@@\n-foo\n+foo2\n", "foo(1)\n\tc.conn.Close(1)"},
+	// brace blocks that end up empty on one side
+	{"empty-block-minus", "@@\n@@\n {\n+bar()\n }\n", "foo(1)"},
+	{"empty-block-plus", "@@\n@@\n {\n-foo(1)\n }\n", "foo(1)"},
+	{"empty-block-both", "@@\n@@\n {\n }\n", "foo(1)"},
+	{"empty-block-comment", "@@\n@@\n-{ /* c */ }\n+{ bar() }\n", "foo(1)"},
+	// an identifier metavariable bound to an absent (nil) node and reused elsewhere
+	{"nil-label-metavar", "@@\nvar x identifier\n@@\n-continue x\n+foo(x)\n+continue x\n", "for range s {\n\t\tcontinue\n\t}"},
+	{"nil-label-break", "@@\nvar x identifier\n@@\n-break x\n+bar(x)\n", "for {\n\t\tbreak\n\t}"},
+	{"nil-else-metavar", "@@\nvar x expression\n@@\n-return x\n+return wrap(x)\n", "return"},
+	// a target with //line directives: positions reported by the file set are not physical lines
+	{"line-directive-target", "@@\n@@\n-foo(...)\n+bar()\n", "//line other.go:100\n\tfoo(1,\n\t\t2,\n\t\t3)"},
+	{"line-directive-before-func", "@@\n@@\n-foo(...)\n+bar()\n", "foo(1,\n\t\t2)\n}\n\n//line gen.y:7\nfunc g() {\n\tfoo(3,\n\t\t4)"},
+}
+
+// a zoo of well-formed patches over syntax the corpus does not contain; every
+// prefix and byte substitution of each is enumerated like the corpus patches
+var c08Zoo = []struct{ name, patch, src string }{
+	{"generic-funcdecl", "@@\nvar T, U identifier\n@@\n-func vfMap[T, U any](xs []T, f func(T) U) []U {\n+func vfMapTo[T, U any](xs []T, f func(T) U) []U {\n   ...\n }\n", "package a\n\nfunc vfMap[T, U any](xs []T, f func(T) U) []U {\n\treturn nil\n}\n"},
+	{"generic-call", "@@\nvar x expression\n@@\n-vfConv[int, string](x)\n+vfConv2[int](x)\n", "package a\n\nfunc f() {\n\t_ = vfConv[int, string](1)\n}\n"},
+	{"method-with-receiver", "@@\nvar r, T identifier\n@@\n-func (r *T) VfOld(ctx context.Context) error {\n+func (r *T) VfNew(ctx context.Context) error {\n   ...\n }\n", "package a\n\nimport \"context\"\n\nfunc (s *Srv) VfOld(ctx context.Context) error {\n\treturn nil\n}\n"},
+	{"struct-type", "@@\nvar T identifier\n@@\n type T struct {\n   ...\n-  vfOld int\n+  vfNew int64\n   ...\n }\n", "package a\n\ntype S struct {\n\ta string\n\tvfOld int\n\tb bool\n}\n"},
+	{"interface-type", "@@\n@@\n-type VfI interface{ Old() }\n+type VfI interface{ New() }\n", "package a\n\ntype VfI interface{ Old() }\n"},
+	{"brace-block", "@@\nvar x expression\n@@\n {\n-  vfLock(x)\n+  vfGuard(x)\n   ...\n-  vfUnlock(x)\n }\n", "package a\n\nfunc f() {\n\tvfLock(mu)\n\twork()\n\tvfUnlock(mu)\n}\n"},
+	{"switch-select", "@@\nvar x identifier\n@@\n switch x {\n-case vfOld:\n+case vfNew:\n   ...\n }\n", "package a\n\nfunc f(k int) {\n\tswitch k {\n\tcase vfOld:\n\t\tg()\n\t}\n}\n"},
+	{"labels-goto", "@@\nvar L identifier\n@@\n-goto L\n+continue L\n", "package a\n\nfunc f() {\nouter:\n\tfor {\n\t\tgoto outer\n\t}\n}\n"},
+	{"composite-lit", "@@\nvar v expression\n@@\n-VfCfg{Old: v}\n+VfCfg{New: v, Extra: []string{\"a\", `b`}}\n", "package a\n\nvar c = VfCfg{Old: 1}\n"},
+	{"func-literal-defer", "@@\n@@\n-defer func() { vfOld() }()\n+defer vfNew()\n", "package a\n\nfunc f() {\n\tdefer func() { vfOld() }()\n}\n"},
+	{"chan-ops", "@@\nvar c, v expression\n@@\n-c <- vfWrap(v)\n+c <- v\n", "package a\n\nfunc f(ch chan<- int) {\n\tch <- vfWrap(1)\n}\n"},
+	{"import-named", "@@\n@@\n-import vfold \"vf/old/pkg\"\n+import vfnew \"vf/new/pkg\"\n\n-vfold.Do()\n+vfnew.Do()\n", "package a\n\nimport vfold \"vf/old/pkg\"\n\nfunc f() {\n\tvfold.Do()\n}\n"},
+	{"value-decl", "@@\nvar n identifier\n@@\n-var n = vfOld()\n+var n = vfNew()\n", "package a\n\nvar x = vfOld()\n"},
+	{"multi-change-comments", "# first\n@@\n# meta comment\nvar x expression\n@@\n# body comment\n-vfA(x)\n+vfB(x)\n\n# second\n# more\n@@\n@@\n-vfC\n+vfD\n", "package a\n\nfunc f() {\n\tvfA(vfC)\n}\n"},
+	{"named-change", "@@ first @@\nvar x expression\n@@\n-vfA(x)\n+vfB(x)\n", "package a\n\nfunc f() {\n\tvfA(1)\n}\n"},
 }
 
 func c08Load() {
@@ -84,6 +119,11 @@ func c08Load() {
 	for _, m := range Misfits {
 		in := CorpusFile{Name: "t.go", Data: []byte("package sample\n\nfunc f() {\n\t" + m.Stmt(1) + "\n}\n")}
 		ps = append(ps, c08Patch{Name: "misfit/" + m.Name, Data: []byte(m.Patch(1)), Inputs: []CorpusFile{in}})
+	}
+	for _, z := range c08Zoo {
+		in := CorpusFile{Name: "z.go", Data: []byte(z.src)}
+		ps = append(ps, c08Patch{Name: "zoo/" + z.name, Data: []byte(z.patch), Inputs: []CorpusFile{in}})
+		c08Cache.inputs = append(c08Cache.inputs, in)
 	}
 	sort.SliceStable(ps, func(i, j int) bool { return ps[i].Name < ps[j].Name })
 	c08Cache.patches = ps
@@ -241,7 +281,7 @@ func (c08) Gen(env *Env, seed uint64, tier string, i int) *Case {
 		it := c08IllTyped[j]
 		patch = []byte(it.patch)
 		body := it.stmt
-		if r.Chance(1, 2) {
+		if r.Chance(1, 2) && !strings.Contains(it.stmt, "\n") && !strings.HasPrefix(it.stmt, "return") {
 			body = "if ok {\n\t\t" + it.stmt + "\n\t}"
 		}
 		inputs = []CorpusFile{{Name: "t.go", Data: []byte("package sample\n\nfunc f() {\n\t" + body + "\n}\n")}}
